@@ -66,7 +66,12 @@ def map1(eng, st, v, f, dtype=None):
     a = arr_of(eng, st, v)
     if a is None:
         return f(v)
-    return new_ref(st, ArrV(a.shape, lambda *i, a=a: f(a.at(*i)), dtype or a.dtype))
+    res = new_ref(st, ArrV(a.shape, lambda *i, a=a: f(a.at(*i)), dtype or a.dtype))
+    info = eng.compress_info.get(v.oid) if isinstance(v, Ref) else None
+    if info is not None and callable(info.get('pointwise')) and 'phi' in info:
+        pw = info['pointwise']
+        eng.compress_info[res.oid] = dict(info, src=ArrV(info['src'].shape, lambda i, pw=pw: f(pw(i)), dtype or a.dtype), pointwise=lambda i, pw=pw: f(pw(i)))
+    return res
 
 
 # ----------------------------------------------------------------------------- indexing
